@@ -514,6 +514,8 @@ class C02(Oracle):
     def saturation(self, w, st, culprit):
         """Clause 5: under saturate an out-of-range input is stored as the bound on its own side."""
         sto = st.store
+        if st.extra.get('selfwiden'):
+            return      # the handler changed the format in mid-conversion: no value is predicted (F10)
         if sto is not None and sto.src is not None and sto.route in CONV_ROUTES and st.outcome == 'ok':
             self.saturation_of_conversion(w, st, culprit)
             return
